@@ -2,6 +2,7 @@ import PartituraModel.Wire
 import PartituraModel.Model.Pedal
 import PartituraModel.Model.PedalDict
 import PartituraModel.Model.PedalTypes
+import PartituraModel.Model.PedalHist
 
 open Wire Model Model.Pedal
 
@@ -113,7 +114,149 @@ def perfNoteArray (uid : Bool) (pps : List PerfPart) : Option String :=
         partRows x.1.2.mpq x.1.2.ppq { x.1.1 with notes := storeTracks x.1.1.notes x.2.1 }
       (perfRows uid rows).map fun r => fmtTuple [fmtNat (numTracks pts), fmtList fmtARow r]
 
+
+-- ------------------------------------------------------------------ round 5
+
+def pNKey : P NKey := do
+  let k ← tok
+  match k with
+  | "id" => pure .id | "pitch" => pure .pitch | "midi_pitch" => pure .midiPitch | "note_on" => pure .noteOn
+  | "note_off" => pure .noteOff | "sound_off" => pure .soundOff | "velocity" => pure .velocity | "track" => pure .track
+  | "channel" => pure .channel | "note_on_tick" => pure .noteOnTick | "note_off_tick" => pure .noteOffTick
+  | "other" => pure .other
+  | _ => P.fail
+
+def fmtVal : Val → String
+  | .none => "None" | .str s => s | .int i => fmtInt i | .rat q => fmtRat q
+
+/-- a statement on ONE performed note -/
+inductive NoteStmt where
+  | set (o : SetOp) | get (k : NKey) | has (k : NKey) | len | del (k : NKey) | copy
+
+def pNoteStmt : P NoteStmt := do
+  let k ← tok
+  match k with
+  | "S" => do let o ← pSetOp; pure (.set o)
+  | "G" => do let k ← pNKey; pure (.get k)
+  | "H" => do let k ← pNKey; pure (.has k)
+  | "L" => pure .len
+  | "D" => do let k ← pNKey; pure (.del k)
+  | "C" => pure .copy
+  | _ => P.fail
+
+/-- the note after the statement and what the statement answered -/
+def noteStmt (n : PNote) : NoteStmt → PNote × String
+  | .set o => match setItem n o with
+    | .ok m => (m, "ok")
+    | .error .key => (n, "K")
+    | .error .value => (n, "V")
+  | .get k => (n, fmtVal (getItem n k))
+  | .has k => (n, fmtBool (hasKey n k))
+  | .len => (n, fmtNat (noteLen n))
+  | .del _ => (n, "K")
+  | .copy => match copyNote n with
+    | some m => (m, "ok")
+    | none => (n, "V")
+
+def noteRun : PNote → List NoteStmt → List String
+  | _, [] => []
+  | n, s :: ss => let r := noteStmt n s; fmtTuple [r.2, fmtPNote r.1] :: noteRun r.1 ss
+
+def pCtlOp : P CtlOp := do
+  let k ← tok
+  match k with
+  | "append" => do let c ← pControl; pure (.append c)
+  | "del" => do let i ← nat; pure (.del i)
+  | "number" => do let i ← nat; let v ← int; pure (.setNumber i v)
+  | "time" => do let i ← nat; let t ← rat; pure (.setTime i t)
+  | "value" => do let i ← nat; let v ← int; pure (.setValue i v)
+  | "replace" => do let cs ← list pControl; pure (.replace cs)
+  | _ => P.fail
+
+def pXOp : P XOp := do
+  let k ← tok
+  match k with
+  | "T" => do let t ← int; pure (.base (.thr t))
+  | "S" => do let i ← nat; let o ← pSetOp; pure (.base (.set i o))
+  | "A" => do let r ← pRaw; pure (.base (.append r))
+  | "X" => do let i ← nat; pure (.delNote i)
+  | "I" => do let i ← nat; let r ← pRaw; pure (.insNote i r)
+  | "Y" => do let i ← nat; pure (.copyNote i)
+  | "C" => do let c ← pCtlOp; pure (.ctl c)
+  | _ => P.fail
+
+def fmtCtl (c : Control) : String := fmtTuple [fmtInt c.number, fmtRat c.time, fmtInt c.value]
+
+def lastX (p : PPart) (l : List (PPart × Obs)) : PPart :=
+  match l.getLast? with
+  | some r => r.1
+  | none => p
+
+def pBoxPart : P BoxPart := do
+  let t ← pPartTracks; let m ← list (opt int)
+  pure { tracks := t, metas := m }
+
+def pPerfArg : P PerfArg := do
+  let k ← tok
+  match k with
+  | "single" => do let p ← pBoxPart; pure (.single p)
+  | "items" => do let l ← list (opt pBoxPart); pure (.items l)
+  | "other" => pure .other
+  | _ => P.fail
+
+def pBoxOp : P BoxOp := do
+  let k ← tok
+  match k with
+  | "Z" => pure .sanitize
+  | "P" => do let i ← nat; let p ← pBoxPart; pure (.setPart i p)
+  | "Q" => do let p ← pBoxPart; pure (.appendPart p)
+  | _ => P.fail
+
+def fmtBoxPart (p : BoxPart) : String :=
+  fmtTuple [fmtList fmtInt p.tracks.notes, fmtList (fmtOpt fmtInt) p.tracks.controls,
+            fmtList (fmtOpt fmtInt) p.tracks.programs, fmtList (fmtOpt fmtInt) p.metas]
+
+def fmtBox (ps : List BoxPart) : String :=
+  fmtTuple [fmtNat ps.length, fmtNat (boxNumTracks ps), fmtList fmtNat (ps.map (fun p => partNumTracks p.tracks)),
+            fmtList fmtBoxPart ps]
+
+def handle5 (ts : List String) : Option String :=
+  match ts with
+  | "note" :: rest =>
+    -- PerformedNote(d), then statements on that one note
+    some <| orErr <| (run (do let r ← pRaw; let ss ← list pNoteStmt; pure (r, ss)) rest).bind fun (r, ss) =>
+      (initNote r).map fun n => fmtTuple [fmtPNote n, fmtList id (noteRun n ss)]
+  | "xhist" :: rest =>
+    -- construction, then a history in which notes are also removed / inserted / copied and the controls edited
+    some <| orErr <| (run (do let thr ← int; let mpq ← nat; let ppq ← nat; let ns ← list pRaw; let cs ← list pControl
+                              let ops ← list pXOp; pure (thr, mpq, ppq, ns, cs, ops)) rest).bind
+      fun (thr, mpq, ppq, ns, cs, ops) =>
+        if mpq = 0 then none else (buildRaw ns cs thr).map fun p =>
+          let r := xrun p ops
+          let q := lastX p r
+          fmtTuple [fmtView p,
+                    fmtList (fun (x : PPart × Obs) => fmtTuple [fmtObs x.2, fmtView x.1, fmtList fmtCtl x.1.controls]) r,
+                    fmtList fmtARow (partRows mpq ppq q),
+                    fmtNat (partNumTracks { notes := q.notes.map (·.track), controls := q.controls.map (·.track), programs := [] }),
+                    fmtList fmtCtl (ctlAfter cs ops)]
+  | "defaults" :: rest =>
+    -- PerformedPart(notes, controls=cs) with the keyword defaults; adjust_offsets_w_sustain(notes, cs) called directly
+    some <| orErr <| (run (do let ns ← list pNote; let cs ← list pControl; pure (ns, cs)) rest).bind fun (ns, cs) =>
+      (buildPart ns cs Gen.C14.defaultThreshold).bind fun p =>
+        (adjustDefault ns cs).map fun so =>
+          fmtTuple [fmtList fmtRat p.sound, fmtList fmtRow (noteRows defaultMpq defaultPpq p), fmtList fmtRat so]
+  | "box" :: rest =>
+    -- Performance(arg, ensure_unique_tracks=e), then statements on the performance
+    some <| orErr <| (run (do let e ← opt bool; let a ← pPerfArg; let ops ← list pBoxOp; pure (e, a, ops)) rest).bind
+      fun (e, a, ops) =>
+        (perfInit a (e.getD Gen.C14.ensureUniqueDefault)).map fun ps =>
+          fmtTuple [fmtBox ps, fmtList (fun (x : List BoxPart × Obs) => fmtTuple [fmtObs x.2, fmtBox x.1]) (boxRun ps ops)]
+  | _ => none
+
 def handle (ts : List String) : String :=
+  match handle5 ts with
+  | some r => r
+  | none =>
   match ts with
   | "hist" :: rest =>
     -- construction from note dictionaries, then a history of statements; finally note_array()
